@@ -850,6 +850,45 @@ func (m *machine) Step(op Op) error {
 			}
 		}
 
+	case "bigunset":
+		// an object of 64-90 fields and ONE Unset call that names many keys, some of them absent or repeated:
+		// exactly the named fields that exist go away
+		nf := 64 + op.A%27
+		o := at.NewObject()
+		want := map[string]int{}
+		for i := 0; i < nf; i++ {
+			k := fmt.Sprintf("f%03d", i)
+			o.Set(k, i)
+			want[k] = i
+		}
+		var keys []string
+		for i := 0; i < nf+op.B%20; i++ {
+			switch i % 3 {
+			case 0:
+				k := fmt.Sprintf("f%03d", (i*7)%nf)
+				keys = append(keys, k)
+				delete(want, k)
+			case 1:
+				keys = append(keys, fmt.Sprintf("absent%d", i))
+			default:
+				k := fmt.Sprintf("f%03d", (i*7-7+7*nf)%nf) // a repetition of the key named just before
+				keys = append(keys, k)
+				delete(want, k)
+			}
+		}
+		if err := m.expectPanic("Unset with many keys", false, func() { o.Unset(keys...) }); err != nil {
+			return err
+		}
+		if o.Count() != len(want) {
+			return errf("step %d: an object of %d fields has %d fields after one Unset naming %d keys (%d of them present, some twice, others absent); expected %d", m.step, nf, o.Count(), len(keys), nf-len(want), len(want))
+		}
+		for k, v := range want {
+			if !o.KeyExists(k) || o.Get(k) != v {
+				return errf("step %d: Unset with many keys removed or changed the field %q that was not named", m.step, k)
+			}
+		}
+		m.st.Count("bigunset")
+
 	case "ocontains":
 		n := m.object(op.T)
 		if len(op.Vals) == 0 {
@@ -1049,8 +1088,8 @@ func genRawSlice(t *rapid.T, lo, hi int) []int {
 var listOpNames = []string{"addmany", "add", "insert", "replace", "delete", "deletemulti", "pop", "clear", "reverse", "sort", "sublist", "concat", "getters", "contains", "newlist", "newlistof", "newlistfrom", "sortrun"}
 var listOpWeights = []int{6, 22, 10, 7, 6, 3, 5, 1, 4, 5, 9, 9, 5, 6, 4, 2, 4, 4}
 
-var objectOpNames = []string{"set", "unset", "oclear", "merge", "pluck", "ogetters", "ocontains", "newobject", "newobjectfrom"}
-var objectOpWeights = []int{24, 9, 1, 10, 9, 8, 8, 6, 5}
+var objectOpNames = []string{"set", "unset", "oclear", "merge", "pluck", "ogetters", "ocontains", "newobject", "newobjectfrom", "bigunset"}
+var objectOpWeights = []int{24, 9, 1, 10, 9, 8, 8, 6, 5, 1}
 
 func genListOp(t *rapid.T) Op {
 	name := listOpNames[pick(t, "lop", listOpWeights...)]
